@@ -108,7 +108,7 @@ def run(ctx):
     # feature level (real engine only): composed with-items / sub-workflow / retry / wait / pause-before / join
     # programs whose final summary must not depend on the delivery order, scheduler type or pause points
     from harness import engine_explore as ee
-    ee.explore(ctx, ['C02', 'C01'], ['compose', 'dataflow', 'compose', 'defaults'], ctx.n(16, 160), 5, suite='engine_explore_C02')
+    ee.explore(ctx, ['C02', 'C01'], ['compose', 'dataflow', 'compose', 'defaults', 'nullflow'], ctx.n(20, 200), 5, suite='engine_explore_C02')
 
 
 def search(ctx):
